@@ -26,7 +26,7 @@ import os
 
 from .astutil import (text, access_path, access_paths_in, mutated_paths,
                       paths_overlap, const_value, is_const, calls_in,
-                      walk_no_nested)
+                      walk_no_nested, store_targets)
 from .loader import AnalysisError
 
 PURE_CALLS = {"len", "abs", "isinstance", "hasattr", "float", "int", "min", "max", "dir",
@@ -148,7 +148,9 @@ class Facts:
             d |= access_paths_in(n)
         self.deps[key] = d | self.deps.get(key, set())
 
-    def invalidate(self, mutated):
+    def invalidate(self, mutated, rebound=None):
+        """`rebound`: the paths the statement assigns (None: unknown, treat every mutated path as rebound).  That a plain
+        name is / is not None survives a change of the object's contents (x.append(..), x[i] = ..): only rebinding x ends it"""
         if not mutated:
             return self
         dead = []
@@ -159,9 +161,15 @@ class Facts:
             return self
         f = self.copy()
         for key in dead:
-            f.deps.pop(key, None)
+            keep_none = None
+            if rebound is not None and key in f.nones and key.isidentifier() and key not in rebound:
+                keep_none = f.nones[key]
+            if keep_none is None:
+                f.deps.pop(key, None)
             for store in (f.bools, f.consts, f.nes, f.ivl, f.nones):
                 store.pop(key, None)
+            if keep_none is not None:
+                f.nones[key] = keep_none
             for k in [k for k in f.ords if key in k]:
                 f.ords.pop(k, None)
         return f
@@ -407,6 +415,29 @@ class FactEngine:
                 f.consts[k] = const_value(stmt.value)
                 f._dep(k, t)
                 return f
+        # x = [..] / {..} / (..) / a comprehension: x is certainly not None
+        if isinstance(stmt, ast.Assign) and len(stmt.targets) == 1 and isinstance(stmt.targets[0], ast.Name) \
+                and isinstance(stmt.value, (ast.List, ast.Dict, ast.Set, ast.Tuple, ast.ListComp, ast.DictComp, ast.SetComp, ast.JoinedStr)):
+            f = facts.copy()
+            k = stmt.targets[0].id
+            f.nones[k] = False
+            f.deps[k] = {k}
+            return f
+        # x = y (a plain read): whatever is known about y now holds for x (and keeps holding when y changes later)
+        if isinstance(stmt, ast.Assign) and len(stmt.targets) == 1 and isinstance(stmt.targets[0], ast.Name) \
+                and isinstance(stmt.value, (ast.Name, ast.Attribute, ast.Subscript)):
+            kx, ky = stmt.targets[0].id, access_path(stmt.value)
+            if ky is not None and ky != kx:
+                f = None
+                for nm in ("bools", "consts", "nes", "ivl", "nones"):
+                    st = getattr(facts, nm)
+                    if ky in st:
+                        if f is None:
+                            f = facts.copy()
+                        getattr(f, nm)[kx] = st[ky]
+                if f is not None:
+                    f.deps[kx] = {kx}
+                    return f
         return facts
 
 
@@ -560,7 +591,7 @@ class Enumerator:
     def _simple(self, node, st):
         facts = st.facts
         if self.use_facts:
-            facts = facts.invalidate(mutated_paths(node))
+            facts = facts.invalidate(mutated_paths(node), {access_path(t_) for t_ in store_targets(node) if access_path(t_)})
             facts = FactEngine.learn_assign(node, facts)
         return st.add(Ev("stmt", node), facts)
 
@@ -645,12 +676,14 @@ class Enumerator:
 
     def _for(self, node, st, k):
         counts = self.counts(node)
+        if isinstance(node.iter, (ast.Tuple, ast.List)) and 1 <= len(node.iter.elts) <= 3 and not any(isinstance(e_, ast.Starred) for e_ in node.iter.elts):
+            counts = (len(node.iter.elts),)      # a literal of n elements is iterated exactly n times
         if k in counts:
             yield from self._after_loop(node, st, "normal", k)
         if k < max(counts):
             facts = st.facts
             if self.use_facts:
-                facts = facts.invalidate(mutated_paths(node))
+                facts = facts.invalidate(mutated_paths(node), {access_path(t_) for t_ in store_targets(node) if access_path(t_)})
             st1 = st.add(Ev("iter", node, k), facts)
             for st2, oc in self.block(node.body, st1):
                 if oc[0] in ("next", "continue"):
